@@ -128,8 +128,18 @@ def discharge(ob, timeout_s=10.0, use_fallbacks=True):
         return dict(verdict='unknown-reachability', backend='z3', time=time.time() - t0, model=None)
     neg = z3.Not(ob.goal)
     last = None
+    ext = sum_extensionality(ob) if os.environ.get('PYVC_NO_SUMEXT') is None else []
+    if ext:
+        s = _solver(min(timeout_s, 3.0) * 1000, False)
+        s.add(*ob.hyps)
+        s.add(*ext)
+        s.add(neg)
+        if s.check() == z3.unsat:
+            return dict(verdict='discharged', backend='z3+sum_eq', time=time.time() - t0, model=None)
     for mbqi in (False, True):
-        s = _solver(timeout_s * 1000, mbqi)
+        # the MBQI stage gets three times the budget: the obligations that need it take seconds when the machine is idle and must
+        # not flip to `unknown` when all cores are busy
+        s = _solver(timeout_s * (3000 if mbqi else 1000), mbqi)
         s.add(*ob.hyps)
         s.add(neg)
         r = s.check()
@@ -138,6 +148,15 @@ def discharge(ob, timeout_s=10.0, use_fallbacks=True):
         if r == z3.sat:
             model = small_model(ob, neg, timeout_s) or read_model(s.model(), ob.inputs)
             return dict(verdict='refuted', backend='z3' + ('+mbqi' if mbqi else ''), time=time.time() - t0, model=model)
+        last = s
+    if ext:
+        # instances of the library lemma sum_eq (proved by the induction schema every run) for the SUM terms that occur
+        s = _solver(timeout_s * 1000, False)
+        s.add(*ob.hyps)
+        s.add(*ext)
+        s.add(neg)
+        if s.check() == z3.unsat:
+            return dict(verdict='discharged', backend='z3+sum_eq', time=time.time() - t0, model=None)
         last = s
     if use_fallbacks:
         smt2 = last.to_smt2()
@@ -150,6 +169,38 @@ def discharge(ob, timeout_s=10.0, use_fallbacks=True):
         # a `sat` of a fallback solver carries no model we can replay (and the SMT-LIB rendering of lambdas / patterns is not
         # trusted for refutation): it stays `unknown`
     return dict(verdict='unknown', backend='z3,cvc5,z3-4.8.12' if use_fallbacks else 'z3', time=time.time() - t0, model=None)
+
+
+def sum_extensionality(ob):
+    """pairwise instances of sum_eq for the ground SUM(f, n) terms of an obligation (and of the same statement for MEDIAN(f, n),
+    the median of the first n cells, which holds by definition):
+    n1 == n2 and (forall 0 <= i < n1: f1[i] == f2[i])  ==>  SUM(f1, n1) == SUM(f2, n2)"""
+    found, seen = [], set()
+
+    def walk(t):
+        if t.get_id() in seen or z3.is_quantifier(t):
+            return
+        seen.add(t.get_id())
+        if z3.is_app(t):
+            if t.decl().name() in ('SUM', 'MEDIAN') and t.num_args() == 2 and not any(x.get_id() == t.get_id() for x in found):
+                found.append(t)
+            for c in t.children():
+                walk(c)
+    for h in list(ob.hyps) + [ob.goal]:
+        if z3.is_expr(h):
+            walk(h)
+    out = []
+    if 2 <= len(found) <= 8:
+        for a in range(len(found)):
+            for b in range(a + 1, len(found)):
+                f1, n1 = found[a].arg(0), found[a].arg(1)
+                f2, n2 = found[b].arg(0), found[b].arg(1)
+                if f1.eq(f2) or found[a].decl().name() != found[b].decl().name():
+                    continue
+                i = z3.Int('sx!%d!%d' % (a, b))
+                out.append(z3.Implies(z3.And(n1 == n2, z3.ForAll([i], z3.Implies(z3.And(0 <= i, i < n1), z3.Select(f1, i) == z3.Select(f2, i)))),
+                                      found[a] == found[b]))
+    return out
 
 
 def small_model(ob, neg, timeout_s):
